@@ -212,9 +212,32 @@ func main() {
 			replayed = int(f.Evaluations)
 		}
 		if !ok || (code != 0 && len(f.Violations) == 0) {
-			fmt.Println(tail(out, 40))
-			fmt.Printf("INCONCLUSIVE property=%s replay stage failed (exit %d)\n", id, code)
-			exit(2)
+			// the replay process died without a fragment: replay the files one process each; a
+			// file under which the runtime kills the process (fatal error, fatal signal, panic
+			// outside the guard) reproduces its violation that way
+			stillBad := false
+			for k, sf := range saved {
+				frag1 := filepath.Join(work, fmt.Sprintf("replay-%d.frag", k))
+				out1, code1 := runTest(bin, work, []string{"-test.run", "^TestReplay$"}, []string{
+					"VERIF_REPLAY_FILES=" + sf, "VERIF_REPLAY_PROPERTY=" + id, "VERIF_FRAG=" + frag1, "VERIF_KF=" + kf, "VERIF_TIER=" + tier,
+				}, 10*time.Minute)
+				f1, ok1 := readFrag(frag1)
+				switch {
+				case ok1 && (code1 == 0 || len(f1.Violations) > 0):
+					violations = append(violations, f1.Violations...)
+					replayed += int(f1.Evaluations)
+				case code1 != -2 && (strings.Contains(out1, "fatal error:") || strings.Contains(out1, "unexpected signal") || strings.Contains(out1, "panic:") || strings.Contains(out1, "DATA RACE")):
+					violations = append(violations, ev.Violation{Replay: sf, Msg: "the process replaying this file was killed by the Go runtime:\n" + firstFatal(out1)})
+				default:
+					fmt.Println(tail(out1, 40))
+					stillBad = true
+				}
+			}
+			if stillBad && len(violations) == 0 {
+				fmt.Println(tail(out, 40))
+				fmt.Printf("INCONCLUSIVE property=%s replay stage failed (exit %d)\n", id, code)
+				exit(2)
+			}
 		}
 	}
 
@@ -269,7 +292,7 @@ func main() {
 			// a process killed by the Go runtime while running a recorded case (concurrent map
 			// access, unrecovered panic in a goroutine of the library): the case is the violation
 			cur := filepath.Join(work, fmt.Sprintf("shard%02d.current", i))
-			if data, err := os.ReadFile(cur); err == nil && r.code != -2 && (strings.Contains(r.out, "fatal error:") || strings.Contains(r.out, "DATA RACE") || strings.Contains(r.out, "panic:")) {
+			if data, err := os.ReadFile(cur); err == nil && r.code != -2 && (strings.Contains(r.out, "fatal error:") || strings.Contains(r.out, "unexpected signal") || strings.Contains(r.out, "DATA RACE") || strings.Contains(r.out, "panic:")) {
 				os.MkdirAll(replayDir, 0o755)
 				rf := map[string]any{"property": id, "kind": "workload", "msg": tail(r.out, 8), "case": json.RawMessage(data)}
 				b, _ := json.MarshalIndent(rf, "", " ")
@@ -362,7 +385,7 @@ func main() {
 
 func firstFatal(out string) string {
 	for _, l := range strings.Split(out, "\n") {
-		if strings.Contains(l, "fatal error:") || strings.Contains(l, "DATA RACE") || strings.HasPrefix(l, "panic:") {
+		if strings.Contains(l, "fatal error:") || strings.Contains(l, "unexpected signal") || strings.Contains(l, "DATA RACE") || strings.HasPrefix(l, "panic:") {
 			return strings.TrimSpace(l)
 		}
 	}
